@@ -671,12 +671,21 @@ impl Report {
             Mode::Run => (0..n).collect(),
         };
         let mut stats = SubStats::default();
+        let mut seen: HashSet<String> = HashSet::new();
         for i in range {
             match done(crate::jq::guarded(|| f(i))) {
                 Ok(Ok(ok)) => stats.absorb(ok),
                 Ok(Err(fail)) => {
                     stats.evaluations += 1;
-                    self.handle_fail(name, &mut stats, fail, None, Some(i as u64))
+                    // one report per signature (the first failing case); further ones are counted
+                    if seen.insert(fail.sig.clone()) {
+                        self.handle_fail(name, &mut stats, fail, None, Some(i as u64))
+                    } else if self.env.known.has(&self.id, &fail.sig) {
+                        stats.known_hits += 1;
+                    } else {
+                        stats.violations += 1;
+                        self.violations += 1;
+                    }
                 }
                 Err(p) => {
                     stats.evaluations += 1;
